@@ -180,10 +180,13 @@ def toRecv : Sexp → Option Recv
   | .list (.atom "coll" :: is) => (is.mapM toNat?).map .coll
   | _ => none
 
-def start (d : Doc) (wrapper : Bool) : Recv → List Nat
-  | .doc => d.rootNodes wrapper
-  | .el i => [i]
-  | .coll is => is
+/-- The wire receivers as the model's `PathRoot` (the correspondence runs the model's own `PathRoot.start`). -/
+def Recv.toPathRoot (wrapper : Bool) : Recv → PathRoot
+  | .doc => .parser wrapper
+  | .el i => .tag i
+  | .coll is => .tagCollection is
+
+def start (d : Doc) (wrapper : Bool) (r : Recv) : List Nat := (r.toPathRoot wrapper).start d
 
 def resSx : Option (List Nat) → Sexp
   | none => sym "err"
